@@ -41,6 +41,15 @@ def run_impl(case):
     mo = case["max_order"]
     obj = MultiParticlePtCorrelations(max_order=mo)
     with np.errstate(all="ignore"):
+        if case.get("prev") is not None:
+            # the same object has analysed another sample (same number of events) before: the results for this sample
+            # must not depend on that history
+            obj.mean_pT_correlations(mk_events(case["prev"]), compute_error=False)
+            kap_first = obj.mean_pT_cumulants(mk_events(case["events"]), compute_error=False)
+            corr = obj.mean_pT_correlations(mk_events(case["events"]), compute_error=False)
+            N = np.array(obj.N_events, dtype=float).reshape(len(case["events"]), -1)
+            D = np.array(obj.D_events, dtype=float).reshape(len(case["events"]), -1)
+            return {"N": N.tolist(), "D": D.tolist(), "corr": list(map(float, corr)), "kappa": list(map(float, kap_first))}
         corr = obj.mean_pT_correlations(mk_events(case["events"]), compute_error=False)
         N = np.array(obj.N_events, dtype=float).reshape(len(case["events"]), -1)
         D = np.array(obj.D_events, dtype=float).reshape(len(case["events"]), -1)
@@ -98,11 +107,13 @@ def oracle(case):
     return None
 
 
-def gen_case(rng, small=False):
+def gen_case(rng, small=False, mo=None, nev=None, history=True):
     """regime A (2/3): small integers, every float operation exact, multiplicities may be below k;
-    regime B: dyadic pT / weights, multiplicities above k (no catastrophic cancellation), tolerance 1e-9"""
-    mo = rng.choice([1, 2, 3, 4, 5, 6, 7, 8, 8, 8, 6, 4])
-    nev = rng.choice([1, 1, 2, 2, 3, 4])
+    regime B: dyadic pT / weights, multiplicities above k (no catastrophic cancellation), tolerance 1e-9;
+    a third of the cases come with a previous sample of the same size analysed by the same object first"""
+    top = mo is None
+    mo = mo or rng.choice([1, 2, 3, 4, 5, 6, 7, 8, 8, 8, 6, 4])
+    nev = nev or rng.choice([1, 1, 2, 2, 3, 4])
     evs = []
     exact = rng.random() < 0.67
     weighted = rng.random() < 0.6
@@ -116,7 +127,7 @@ def gen_case(rng, small=False):
         ev = []
         for _ in range(m):
             if exact:
-                pt = rng.choice([1, 1, 2, 2, 3])
+                pt = rng.choice([1, 1, 2, 2, 3, 0])
                 w = rng.choice([1, 2]) if weighted and rng.random() < 0.5 else None
             else:
                 pt = rng.choice([1, 2, 3, 0.5, 1.5, 0.25, 0.75])
@@ -129,7 +140,13 @@ def gen_case(rng, small=False):
         evs.append(ev)
     if all(len(e) < mo for e in evs):
         evs[0] = [[rng.choice([1, 2]), None] for _ in range(mo)]
-    return {"max_order": mo, "events": evs}
+    if exact and nev > 1 and rng.random() < 0.12:
+        i = rng.randrange(nev)                      # an event of particles at rest in the transverse plane (pT = 0)
+        evs[i] = [[0, p[1]] for p in evs[i]] or [[0, None] for _ in range(mo)]
+    case = {"max_order": mo, "events": evs}
+    if top and history and rng.random() < 0.33:
+        case["prev"] = gen_case(rng, small=small, mo=mo, nev=nev, history=False)["events"]
+    return case
 
 
 def fv(x):
@@ -207,6 +224,7 @@ def correspondence(ctx, model_ok=True):
                    "(exact, or within 1e-9 relative where float rounding enters)",
            "samples": cases[:3], "model_runner": "Eval vm_compute in generated cases files (sharded coqc)",
            "failures": [], "broken": []}
+    out["all_cases"] = cases          # the driver runs the property oracle on these as well
     if not model_ok:
         out["broken"].append({"what": "correspondence not run: the model's proofs/definitions did not build"})
         return out
@@ -270,26 +288,25 @@ def shrink(case):
 
 
 def _smaller(c):
-    evs = c["events"]
+    evs, prev = c["events"], c.get("prev")
+
+    def mk(e, pv=prev):
+        d = {"max_order": c["max_order"], "events": e}
+        if pv is not None:
+            d["prev"] = pv
+        return d
+    if prev is not None:
+        yield mk(evs, None)
     for i in range(len(evs)):
         if len(evs) > 1:
-            yield {"max_order": c["max_order"], "events": evs[:i] + evs[i + 1:]}
+            yield mk(evs[:i] + evs[i + 1:], None if prev is None else prev[:i] + prev[i + 1:])
     for i, ev in enumerate(evs):
         for j in range(len(ev)):
-            yield {"max_order": c["max_order"], "events": evs[:i] + [ev[:j] + ev[j + 1:]] + evs[i + 1:]}
+            yield mk(evs[:i] + [ev[:j] + ev[j + 1:]] + evs[i + 1:])
     for i, ev in enumerate(evs):
         for j, p in enumerate(ev):
             if p[1] is not None:
-                yield {"max_order": c["max_order"], "events": evs[:i] + [ev[:j] + [[p[0], None]] + ev[j + 1:]] + evs[i + 1:]}
+                yield mk(evs[:i] + [ev[:j] + [[p[0], None]] + ev[j + 1:]] + evs[i + 1:])
             if p[0] != 1:
-                yield {"max_order": c["max_order"], "events": evs[:i] + [ev[:j] + [[1, p[1]]] + ev[j + 1:]] + evs[i + 1:]}
+                yield mk(evs[:i] + [ev[:j] + [[1, p[1]]] + ev[j + 1:]] + evs[i + 1:])
 
-LEVEL_TEXT = ("Theorems (Coq, any commutative ring, all events/multiplicities/weights, orders 1..8): the numerator and "
-              "denominator polynomials regenerated from the source equal the sums over ordered k-tuples of distinct "
-              "particles; the ratio of event sums; the eight cumulant formulas equal the moment-cumulant recursion. "
-              "A changed coefficient, sign, exponent or index in the source breaks a `ring` step. The hand model around "
-              "the polynomials is run against the real code on every run.")
-LEVEL_NOTE = ("Trusted: Coq kernel/vm_compute; translator gen_ptcorr (poly extractor); hand model Model/PtCorr.v (power sums, "
-              "unset weight = 1, ratio, cumulant driver) validated by correspondence only; exact arithmetic instead of IEEE "
-              "rounding; pT_abs() as an oracle. R instance uses the stdlib real axioms.")
-TECHNIQUE = "Coq proof by induction over the particle list with ring-checked Newton-Girard step identities on polynomials regenerated from the Python source; vm_compute correspondence for the hand model"
